@@ -28,6 +28,9 @@ type val struct {
 	desc string // expected canonical description
 	nt   bool
 	decl string // extra declarations
+	// jsobj: the value is a *js.Object or leads to one through first fields / interfaces; a struct
+	// "containing a *js.Object field" is passed as the content of that field (package js doc)
+	jsobj bool
 }
 
 func numDesc(f float64) string {
@@ -187,7 +190,7 @@ func (g *vgen) value(depth int) val {
 	case 5: // nil values
 		t := rapid.SampledFrom([]string{"[]int", "[]string", "map[string]int", "*js.Object", "interface{}", "func()", "*int", "[]interface{}"}).Draw(g.rt, "niltype")
 		lit := "(" + t + ")(nil)"
-		return val{typ: t, lit: lit, desc: "null", nt: true}
+		return val{typ: t, lit: lit, desc: "null", nt: true, jsobj: t == "*js.Object"}
 	case 6, 7: // other slices (homogeneous element type)
 		e0 := g.value(depth - 1)
 		if strings.HasPrefix(e0.typ, "int") || strings.HasPrefix(e0.typ, "uint") || strings.HasPrefix(e0.typ, "float") {
@@ -249,10 +252,14 @@ func (g *vgen) value(depth int) val {
 		fs := []kv{{"Alpha", a.desc}, {"Gamma", c.desc}}
 		sort.Slice(fs, func(i, j int) bool { return keyDesc(fs[i].k) < keyDesc(fs[j].k) })
 		desc := "Object{" + keyDesc(fs[0].k) + "=" + fs[0].d + "," + keyDesc(fs[1].k) + "=" + fs[1].d + "}"
-		return val{typ: name, lit: fmt.Sprintf("%s{Alpha: %s, hidden: %s, Gamma: %s}", name, a.lit, b.lit, c.lit), desc: desc, nt: true, decl: decl}
+		if a.jsobj {
+			// wrapper struct: only the content of the leading *js.Object is passed
+			desc = a.desc
+		}
+		return val{typ: name, lit: fmt.Sprintf("%s{Alpha: %s, hidden: %s, Gamma: %s}", name, a.lit, b.lit, c.lit), desc: desc, nt: true, decl: decl, jsobj: a.jsobj}
 	case 11: // interface holding a value
 		e := g.value(depth - 1)
-		return val{typ: "interface{}", lit: "interface{}(" + e.lit + ")", desc: e.desc, nt: e.nt, decl: e.decl}
+		return val{typ: "interface{}", lit: "interface{}(" + e.lit + ")", desc: e.desc, nt: e.nt, decl: e.decl, jsobj: e.jsobj}
 	}
 }
 
